@@ -31,7 +31,7 @@ from lsst.daf.relation import (
 from lsst.daf.relation.iteration import RowSequence
 
 from . import model as M
-from .exprs import build_expr, build_pred, expr_cols, pred_cols
+from .exprs import expr_cols, pred_cols
 from .interp import InterpError, interp
 from .world import SimIOError, SimRows, children, needs_processing, walk, walk_live
 
@@ -108,6 +108,18 @@ def process_reachable_mats(rel):
             out.append(r)
         stack.extend(children(r))
     return out
+
+
+def build_expr(e, tags):
+    from .execu import build_expr as b
+
+    return b(e, tags)
+
+
+def build_pred(p, tags):
+    from .execu import build_pred as b
+
+    return b(p, tags)
 
 
 class ExtraOps:
@@ -239,6 +251,17 @@ class ExtraOps:
                     self.violate("hook_bad_arg", {"hook": c["kind"], "arg": c["str"][:200],
                                                   "why": "payload-less SQL materialization inside hook argument"}, entry=ent)
                     break
+            if c["kind"] == "transfer" and c.get("materialize_as") is not None:
+                # fusion is only legitimate for a transfer *directly* upstream of that materialization
+                node = next((n for n in walk(ent.rel) if isinstance(n, Materialization) and n.name == c["materialize_as"]), None)
+                if node is not None:
+                    cur = node.target
+                    while isinstance(cur, MarkerRelation) and not isinstance(cur, (Transfer, Materialization)):
+                        cur = cur.target
+                    if not isinstance(cur, Transfer):
+                        self.violate("hook_bad_arg", {"hook": "transfer", "materialize_as": c["materialize_as"],
+                                                      "why": "transfer told to materialize although operations lie between it "
+                                                             "and the materialization"}, entry=ent)
             name = c.get("name") or c.get("materialize_as")
             if name is not None:
                 if mat_before.get(name) is not None:
@@ -533,6 +556,16 @@ class ExtraOps:
             return lambda: ops[0].rel.chain(ops[1].rel)
         if k == "join":
             kw = {x: bool(op[y]) for x, y in (("backtrack", "bt"), ("transfer", "tr")) if y in op}
+            if op.get("cc"):
+                def call():
+                    from lsst.daf.relation import Join as _Join, Predicate as _P
+
+                    shared = sorted(set(ops[0].mv.cols) & set(ops[1].mv.cols))
+                    cc = frozenset(tags[c] for c in (op["cc"] if isinstance(op["cc"], list) else shared))
+                    pred = build_pred(op["p"], tags) if op.get("p") is not None else _P.literal(True)
+                    return _Join(pred, cc, cc).partial(ops[1].rel).apply(ops[0].rel, **kw)
+
+                return call
             return lambda: ops[0].rel.join(ops[1].rel, build_pred(op["p"], tags) if op.get("p") is not None else None, **kw)
         raise ValueError(k)
 
@@ -580,6 +613,8 @@ class ExtraOps:
             r = ops[1].mv
             if op.get("p") is not None and not pred_cols(op["p"]) <= (cols | set(r.cols)):
                 return "missing column in join predicate", (ColumnError,)
+            if isinstance(op.get("cc"), list) and not set(op["cc"]) <= (cols & set(r.cols)):
+                return "explicit join common columns missing from an operand", (ColumnError,)
             if t.engine != r.engine and not op.get("bt", True) and not op.get("tr", False):
                 return "join operands in different engines, no transfer allowed", (EngineError,)
         return None, ()
